@@ -88,6 +88,11 @@ def const_slot(ty):
     v.join(" ")"""
 
 
+# how many of each angle unit make one turn - what the unit NAMES mean, independent of the tables
+PER_TURN = {"revolution": 1, "degree": 360, "gon": 400, "mil": 6400, "minute": 21600, "second": 1296000}
+PI_Q = Fraction(314159265358979323846, 10 ** 20)
+
+
 def run(ctx):
     if not ctx.translate():
         return
@@ -116,6 +121,8 @@ def run(ctx):
                 vals = [sp["+0"], sp["-0"], sp["nan"], sp["+inf"], sp["-inf"], fl(1.0), fl(-1.0), fl(0.25), fl(90.0), fl(1.5707963267948966 / k), fl(3.141592653589793 / k),
                         fl(1.0e4 / k), fl(1.0e6 / k), fl(-7.3e8 / k), fl(12345.678), fl(1.0e15 / k) if ty == "f64" else fl(3.0e7 / k)]
                 vals += [FC.random_value(rng, ty) for _ in range(nrand)]
+                if u["name"] in PER_TURN:
+                    vals.append(fl(PER_TURN[u["name"]] / 8.0))       # an eighth of a turn in this unit (exactly representable)
                 for vb in vals:
                     for f in TRIG + ["sin_cos_s", "sin_cos_c"]:
                         cid = f"a{len(cases)}"
@@ -167,6 +174,8 @@ def run(ctx):
     ctx.vm_crosscheck(mlines, model)
     bad, disagreements = [], []
     hist, distinct = {}, set()
+    turn_checked = 0
+    fl_of = lambda ty_, x: C.f64_bits(x) if ty_ == "f64" else C.f32_bits(x)
     for cid, sl, args in cases:
         kind, ty, bs, q, u, f, vb, _ = meta[cid]
         got = impl.get(cid)
@@ -184,6 +193,12 @@ def run(ctx):
                     bad.append((cid, f"{nm}: got {p[2*i]}, expected {p[2*i+1]} ({ty})"))
             continue
         s, rad, r, o = p
+        if kind == "angle" and u["name"] in PER_TURN and f == "tan" and vb == fl_of(ty, PER_TURN[u["name"]] / 8.0):
+            # an eighth of a turn is pi/4 rad whatever the unit (the mil is a 7-digit rounding: 2e-6)
+            sv = FC.bits_to_frac(int(s, 16), ty) if s not in ("nan",) else None
+            turn_checked += 1
+            if sv is None or abs(sv - PI_Q / 4) > Fraction(2, 10 ** 6) * PI_Q / 4:
+                bad.append((cid, f"{PER_TURN[u['name']]}/8 {u['name']} is stored as {float(sv) if sv is not None else s} rad, an eighth of a turn is {float(PI_Q / 4)} rad"))
         if s != rad:
             bad.append((cid, f"stored value {s} is not the magnitude in radians/ratio {rad}"))
         if r != o:
@@ -212,6 +227,7 @@ def run(ctx):
                    "+-0, NaN, inf, pi/2 and pi in the unit, 1e4..1e15 rad, random; result compared bit for bit with the storage type's function of the stored "
                    "magnitude computed in the same process; published constants compared exactly")
     cov["disagreements_checked"] = len(disagreements)
+    cov["eighth_of_a_turn_checks"] = turn_checked
     cov["spec_failures"] = len(bad)
     cov["histogram"] = hist
     smp = ctx.rng.fork("samples").sample(cases, 6)
